@@ -229,14 +229,20 @@ def counterexample(overlay, harness_full, features=None, timeout=1800, returns=F
         rep["rerun_successful"] = True
         return rep
     tests = []
-    for m in PLAYBACK_RE.finditer(text):
-        h, kind, desc, fname, body = m.groups()
+    for chunk in text.split("/// Test generated for harness `")[1:]:
+        h = chunk.split("`", 1)[0]
+        mk = re.search(r"/// Check for `(\w+)`: \"(.*?)\"\s*\n", chunk, re.S)
+        mf = re.search(r"(#\[test\]\s*\n\s*fn (\w+)\(\) \{(.*?)\n\s*\}\n)", chunk, re.S)
+        if not mk or not mf:
+            continue
+        kind, desc = mk.group(1), mk.group(2)
+        fname, body = mf.group(2), mf.group(3)
         if h.split("::")[-1] != short or (kind == "cover") != returns:
             continue
         vals = re.findall(r"//\s*(-?\d+)\w*\s*\n\s*vec!\[([^\]]*)\]", body)
         tests.append({"test": fname, "check": desc, "values": [v[0] for v in vals],
                       "bytes": [[int(x) for x in v[1].split(",") if x.strip()] for v in vals],
-                      "text": m.group(0)})
+                      "text": mf.group(1)})
     rep["kani_cmd"] = " ".join(cmd)
     if not tests:
         rep["note"] = "Kani produced no concrete playback test for a failed check"
